@@ -144,3 +144,67 @@ def pn(fn, i):
     if i >= len(a):
         raise AnalysisError("%s has fewer than %d parameters" % (getattr(fn, "_qual", fn.name), i + 1))
     return a[i].arg
+
+
+_PASS_THROUGH = {"list", "tuple", "reversed", "sorted", "iter"}
+
+
+def access_paths(fn, roots, within=None):
+    """Attribute paths read below the given root names, resolved through local
+    aliases: `a = node.args; for d in a.defaults + a.kw_defaults` yields
+    {"node.args", "node.args.defaults", "node.args.kw_defaults", ...};
+    elements of an iterated / subscripted value are `path[]`.  `within`
+    restricts the collected accesses to those statements (aliases are still
+    resolved over the whole function)."""
+    env = {k: {v} for k, v in roots.items()}
+
+    def paths(e):
+        if isinstance(e, ast.Name):
+            return set(env.get(e.id, ()))
+        if isinstance(e, ast.Attribute):
+            return {p + "." + e.attr for p in paths(e.value)}
+        if isinstance(e, ast.Subscript):
+            return {p + "[]" for p in paths(e.value)}
+        if isinstance(e, ast.BinOp) and isinstance(e.op, ast.Add):
+            return paths(e.left) | paths(e.right)
+        if isinstance(e, ast.Call) and e.args and ((isinstance(e.func, ast.Name) and e.func.id in _PASS_THROUGH) or (isinstance(e.func, ast.Attribute) and isinstance(e.func.value, ast.Name) and e.func.value.id == "self")):
+            # list(x) / self._helper(x): the result still denotes elements of x
+            out = set()
+            for a in e.args:
+                out |= paths(a)
+            return out
+        if isinstance(e, ast.IfExp):
+            return paths(e.body) | paths(e.orelse)
+        if isinstance(e, ast.BoolOp):
+            out = set()
+            for v in e.values:
+                out |= paths(v)
+            return out
+        return set()
+
+    def bind(target, ps):
+        if isinstance(target, ast.Name) and ps:
+            cur = env.setdefault(target.id, set())
+            if not ps <= cur:
+                cur |= ps
+                return True
+        return False
+
+    changed = True
+    rounds = 0
+    while changed and rounds < 10:
+        changed = False
+        rounds += 1
+        for n in ast.walk(fn):
+            if isinstance(n, ast.Assign):
+                for t in n.targets:
+                    changed |= bind(t, paths(n.value))
+            elif isinstance(n, (ast.For, ast.comprehension)):
+                changed |= bind(n.target, {p + "[]" for p in paths(n.iter)})
+    out = set()
+    scope = [fn] if within is None else list(within)
+    for root in scope:
+        for n in ast.walk(root):
+            if isinstance(n, (ast.Attribute, ast.Subscript, ast.Name)):
+                out |= paths(n)
+    return out
